@@ -1078,7 +1078,7 @@ fn run_session(ctx: &Ctx, src: &mut Src) -> WorldResult {
     let mut dropped_seen = false;
     let mut size_now = size0;
     let mut pools_cache: Option<(TerminalSize, Pools)> = None;
-    let result: Result<u32, Error> = {
+    let result: Result<u32, Error> = std::panic::catch_unwind(std::panic::AssertUnwindSafe(|| {
         let live = live.clone();
         let last = last.clone();
         let used = used.clone();
@@ -1142,7 +1142,13 @@ fn run_session(ctx: &Ctx, src: &mut Src) -> WorldResult {
             }
             Ok(action)
         })
-    };
+    }))
+    .unwrap_or_else(|payload| {
+        // the code under test panicked: hand the tape back before the panic travels on,
+        // otherwise the run could not be replayed
+        std::mem::swap(src, &mut live.borrow_mut());
+        std::panic::resume_unwind(payload)
+    });
     let mut live = Rc::try_unwrap(live).ok().expect("src still shared").into_inner();
     std::mem::swap(src, &mut live);
     term.deliver_all();
